@@ -1,5 +1,5 @@
 """C09 deductive part: chunk_ranges against its range-arithmetic contract and unique_iter against "exactly the first occurrence of
-each key, in input order" (contracts/iterutils_c.py)"""
+each key, in input order" and bucketize against "every element in exactly one bucket, in input order" (contracts/iterutils_c.py)"""
 from pyvc import driver
 from contracts import iterutils_c as m
 
@@ -8,12 +8,18 @@ def run(ded, repo, tier):
     eng = m.make_engine(repo)
     driver.discharge(ded, eng, 'chunk_ranges', clause_of={'*': 'chunk_ranges'}, tier=tier)
     driver.run_parallel(ded, [dict(module='contracts.unique_c', repo=repo, q='unique_iter', variant=v, tier=tier,
-                                   clause_of={'*': 'unique_first_occurrences'}) for v in ('identity', 'callable')])
+                                   clause_of={'*': 'unique_first_occurrences'}) for v in ('identity', 'callable')] +
+                        [dict(module='contracts.unique_c', repo=repo, q='bucketize', variant=v, tier=tier,
+                              clause_of={'*': 'bucketize_partition'}) for v in ('plain,nofilter', 'transform,filter')])
     ded.assume('chunk_ranges parameters are ints (int(value) is the identity); valid parameters = sizes >= 0, '
                'chunk_size >= 1, 0 <= overlap_size < chunk_size')
     ded.assume('integers are mathematical (exact for Python ints)')
     ded.assume('unique_iter: src is a finite sequence of opaque hashable items that is the same at every traversal; key is None or an '
                'opaque deterministic callable that does not raise (the attribute-name form of key is bounded only); ==/hash of keys '
                'are total and side-effect free')
-    ded.trust('not under contract (bounded only): chunked/chunked_iter, windowed/pairwise, split/strip helpers, redundant, bucketize, '
-              'partition')
+    ded.assume('bucketize: same assumptions on src; key, value_transform and key_filter are opaque deterministic callables that do not '
+               'raise (key is neither a str nor a list: those forms are bounded only); the proved postcondition: every kept item sits '
+               'in the bucket of its key at a ghost slot, every bucket slot holds exactly one kept item of that key, slots are in '
+               'input order, no bucket is empty')
+    ded.trust('not under contract (bounded only): chunked/chunked_iter, windowed/pairwise, split/strip helpers, redundant, partition '
+              '(a two-line wrapper of bucketize)')
